@@ -19,7 +19,7 @@ Import ListNotations.
 Definition obj := nat.
 Definition var := nat.
 
-Record cell := { rc : nat; dcount : nat; val : nat }.
+Record cell := { rc : nat; dcount : nat; orph : nat; val : nat }.
 
 Inductive hnd := Dead | Live (p : option obj).
 
@@ -57,7 +57,7 @@ Definition inc_reference (s : state) (p : option obj) : state :=
   | None => s
   | Some o =>
       match nth_error (cells s) o with
-      | Some c => {| cells := upd (cells s) o {| rc := S (rc c); dcount := dcount c; val := val c |};
+      | Some c => {| cells := upd (cells s) o {| rc := S (rc c); dcount := dcount c; orph := orph c; val := val c |};
                      vars := vars s;
                      bad := bad s || (0 <? dcount c) |}
       | None => flag s true
@@ -65,8 +65,11 @@ Definition inc_reference (s : state) (p : option obj) : state :=
   end.
 
 (** CountingPtr::dec_reference(): [if (ptr_ && ptr_->dec_reference()) Deleter()(ptr_);]
-    ReferenceCounter::dec_reference(): [assert(reference_count_ > 0); return (--reference_count_ == 0);] *)
-Definition dec_reference (s : state) (p : option obj) : state :=
+    ReferenceCounter::dec_reference(): [assert(reference_count_ > 0); return (--reference_count_ == 0);]
+    [nd] = the handle's Deleter is CountingPtrNoOperationDeleter (tlx::CountingPtrNoDelete<T>): the handle counts like
+    every other one, but its Deleter call does nothing; the object stays alive without an owner ([orph] counts
+    these calls; the user is responsible for such an object).  Default deleter: [delete ptr] ([dcount]). *)
+Definition dec_reference (nd : bool) (s : state) (p : option obj) : state :=
   match p with
   | None => s
   | Some o =>
@@ -75,8 +78,10 @@ Definition dec_reference (s : state) (p : option obj) : state :=
           let r := rc c - 1 in
           {| cells := upd (cells s) o
                         (if r =? 0
-                         then {| rc := r; dcount := S (dcount c); val := val c |}      (* Deleter()(ptr_) *)
-                         else {| rc := r; dcount := dcount c; val := val c |});
+                         then (if nd
+                               then {| rc := r; dcount := dcount c; orph := S (orph c); val := val c |}   (* no-op Deleter *)
+                               else {| rc := r; dcount := S (dcount c); orph := orph c; val := val c |})  (* delete ptr_ *)
+                         else {| rc := r; dcount := dcount c; orph := orph c; val := val c |});
              vars := vars s;
              bad := bad s || (0 <? dcount c) || (rc c =? 0) |}
       | None => flag s true
@@ -85,8 +90,14 @@ Definition dec_reference (s : state) (p : option obj) : state :=
 
 (** [new Type(x)]: a fresh object, ReferenceCounter() starts at zero *)
 Definition alloc (s : state) (x : nat) : state * obj :=
-  ({| cells := cells s ++ [{| rc := 0; dcount := 0; val := x |}]; vars := vars s; bad := bad s |},
+  ({| cells := cells s ++ [{| rc := 0; dcount := 0; orph := 0; val := x |}]; vars := vars s; bad := bad s |},
    length (cells s)).
+
+(** The Deleter is part of the handle's type.  Handle variables are typed storage: [nodel v] says that variable [v]
+    is a CountingPtr<T, CountingPtrNoOperationDeleter>.  Everything below is parametrised by this assignment (any
+    mixture of default and no-delete handles, also on the same object). *)
+Section Kinds.
+Variable nodel : var -> bool.
 
 (** ** Constructors (target variable is raw storage) *)
 
@@ -117,34 +128,35 @@ Definition conv_move_ctor (s : state) (v w : var) : state :=
 Definition copy_assign (s : state) (v w : var) : state :=
   if optnat_eqb (ptr_of s v) (ptr_of s w) then s else
   let s1 := inc_reference s (ptr_of s w) in
-  let s2 := dec_reference s1 (ptr_of s1 v) in
+  let s2 := dec_reference (nodel v) s1 (ptr_of s1 v) in
   setv s2 v (Live (ptr_of s2 w)).
 Definition conv_copy_assign (s : state) (v w : var) : state :=
   if optnat_eqb (ptr_of s v) (ptr_of s w) then s else
   let s1 := inc_reference s (ptr_of s w) in
-  let s2 := dec_reference s1 (ptr_of s1 v) in
+  let s2 := dec_reference (nodel v) s1 (ptr_of s1 v) in
   setv s2 v (Live (ptr_of s2 w)).
 
 (** operator=(CountingPtr&& other):
       [if (ptr_ == other.ptr_) return *this; dec_reference(); ptr_ = other.ptr_; other.ptr_ = nullptr;] *)
 Definition move_assign (s : state) (v w : var) : state :=
   if optnat_eqb (ptr_of s v) (ptr_of s w) then s else
-  let s1 := dec_reference s (ptr_of s v) in
+  let s1 := dec_reference (nodel v) s (ptr_of s v) in
   let s2 := setv s1 v (Live (ptr_of s1 w)) in
   setv s2 w (Live None).
 Definition conv_move_assign (s : state) (v w : var) : state :=
   if optnat_eqb (ptr_of s v) (ptr_of s w) then s else
-  let s1 := dec_reference s (ptr_of s v) in
+  let s1 := dec_reference (nodel v) s (ptr_of s v) in
   let s2 := setv s1 v (Live (ptr_of s1 w)) in
   setv s2 w (Live None).
 
 (** ~CountingPtr(): [dec_reference();] — the storage is raw afterwards *)
-Definition dtor (s : state) (v : var) : state :=
-  setv (dec_reference s (ptr_of s v)) v Dead.
+Definition dtor_k (nd : bool) (s : state) (v : var) : state :=
+  setv (dec_reference nd s (ptr_of s v)) v Dead.
+Definition dtor (s : state) (v : var) : state := dtor_k (nodel v) s v.
 
 (** reset(): [dec_reference(); ptr_ = nullptr;] *)
 Definition reset (s : state) (v : var) : state :=
-  setv (dec_reference s (ptr_of s v)) v (Live None).
+  setv (dec_reference (nodel v) s (ptr_of s v)) v (Live None).
 
 (** swap(CountingPtr& b): [std::swap(ptr_, b.ptr_)] = tmp = a; a = b; b = tmp *)
 Definition swap (s : state) (v w : var) : state :=
@@ -164,7 +176,7 @@ Definition assign_fresh (s : state) (v : var) (x : nat) : state :=
   let '(s1, n) := alloc s x in
   let s2 := ctor_raw (push_temp s1) t (Some n) in
   let s3 := move_assign s2 v t in
-  pop_temp (dtor s3 t).
+  pop_temp (dtor_k (nodel v) s3 t).                 (* the temporary has the type of *this *)
 
 (** unify(): [if (ptr_ && !ptr_->unique()) operator=(CountingPtr(new Type( *ptr_)));]
     (the copy of a ReferenceCounter starts at zero; the payload is copied) *)
@@ -266,10 +278,10 @@ Definition observe_var (s : state) (h : hnd) : vobs :=
       end
   end.
 
-Record obs := { ovars : list vobs; odestroyed : list nat; obad : bool }.
+Record obs := { ovars : list vobs; odestroyed : list nat; oorphaned : list nat; obad : bool }.
 
 Definition observe (s : state) : obs :=
-  {| ovars := map (observe_var s) (vars s); odestroyed := map dcount (cells s); obad := bad s |}.
+  {| ovars := map (observe_var s) (vars s); odestroyed := map dcount (cells s); oorphaned := map orph (cells s); obad := bad s |}.
 
 (** run with the observation after every step ([None] = step skipped, precondition failed) *)
 Fixpoint run_obs (s : state) (ops : list op) : list (option obs) :=
@@ -296,6 +308,8 @@ Definition run_case (nvars : nat) (ops : list op) : list (option obs) * obs :=
     copy-assignment without the alias test and with the decrement first ("IMPORTANT: In case of
     self-assignment, call AFTER inc_reference()" in the source). *)
 Definition copy_assign_decfirst (s : state) (v w : var) : state :=
-  let s1 := dec_reference s (ptr_of s v) in
+  let s1 := dec_reference (nodel v) s (ptr_of s v) in
   let s2 := inc_reference s1 (ptr_of s1 w) in
   setv s2 v (Live (ptr_of s2 w)).
+
+End Kinds.
